@@ -18,8 +18,11 @@ C10, round 5 — "scalar and array queries agree": how the six maps dispatch on 
     partitura/score.py  Part.clef_map
         def collator(time): return np.array([interpolator(time) for interpolator in interpolators], dtype=int)
 
-An argument is a scalar (a Python or numpy number) or a sequence (list, tuple, 1-d array - possibly empty); a result
-is one row or one row per element.  Lean core + Model files only.
+An argument is a scalar (a Python or numpy number), a 0-dimensional array (`np.array(5)`) or a sequence (list, tuple,
+1-d array - possibly empty); a result is one row or one row per element.  Round 6: `metrical_position_map` is modelled
+as the code dispatches (`PPoly.__call__` and the wrapper called with the argument itself, the `Iterable` test - true
+for EVERY `numpy.ndarray`, also a 0-dimensional one -, `np.column_stack` / the tuple) instead of row by row.
+Lean core + Model files only.
 -/
 import PartituraModel.Model.StepMapPart
 
@@ -28,6 +31,8 @@ namespace Model.StepMap
 /-- the argument of a map call -/
 inductive Arg where
   | scalar (x : Int)
+  /-- `np.array(x)`: `np.ndim(input) == 0`, but an instance of `collections.abc.Iterable` -/
+  | zerod (x : Int)
   | seq (xs : List Int)
   deriving Repr, DecidableEq
 
@@ -37,15 +42,27 @@ inductive Res (β : Type) where
   | many (vs : List β)
   deriving Repr, DecidableEq
 
+/-- the call answered with ONE row -/
+def Res.isOne {β : Type} : Res β → Bool
+  | .one _ => true
+  | .many _ => false
+
+/-- a number or a 0-dimensional array (`np.ndim(input) == 0`) -/
+def Arg.isZeroDim : Arg → Bool
+  | .seq _ => false
+  | _ => true
+
 /-- `scipy.interpolate.interp1d.__call__`: evaluated elementwise, the result has the shape of the argument -/
 def callScipy {β : Type} (f : Int → β) : Arg → Res β
   | .scalar x => .one (f x)
+  | .zerod x => .one (f x)
   | .seq xs => .many (xs.map f)
 
 /-- the single-sample branch of the wrapper: the one value, broadcast to `len(np.atleast_1d(input_var))` rows;
     `np.ndim(input_var) == 0`: the first (only) row -/
 def callConst {β : Type} (v : β) : Arg → Res β
   | .scalar _ => .one v
+  | .zerod _ => .one v
   | .seq xs => .many (List.replicate xs.length v)
 
 /-- `partitura.utils.generic.interp1d(x, y, kind="previous", fill_value="extrapolate")` as a callable -/
@@ -73,6 +90,7 @@ def callClef (span : Span) (clefs : List RawClef) (otherStaffs : List Int) : Arg
         (List.range n).map fun (i : Nat) => callInterpPrev (clefTableStaff span rows noneCode ((i : Int) + 1))
       some (match a with
         | .scalar x => .one (per.map fun f => match f (.scalar x) with | .one v => v | .many _ => none)
+        | .zerod x => .one (per.map fun f => match f (.zerod x) with | .one v => v | .many _ => none)
         | .seq xs => .many ((List.range xs.length).map fun j =>
             per.map fun f => match f (.seq xs) with | .many vs => (vs[j]?).join | .one _ => none))
     | _, _ => none
@@ -93,13 +111,47 @@ def allSomeL {β : Type} : List (Option β) → Option (List β)
   | some a :: rest => (allSomeL rest).map (a :: ·)
   | none :: _ => none
 
-/-- `metrical_position_map`: `isinstance(input, Iterable)` - a sequence gives `np.column_stack` of the two answers
-    (one row per element), anything else the tuple of the two answers; without measures it is the wrapper's linear
-    zero interpolator (scipy: shape of the argument) -/
+/-- `isinstance(input, Iterable)`: lists, tuples and every `numpy.ndarray` - the class defines `__iter__`, so a
+    0-dimensional array passes the test too (iterating over it would raise; the test does not iterate) -/
+def Arg.isIterable : Arg → Bool
+  | .scalar _ => false
+  | .zerod _ => true
+  | .seq _ => true
+
+/-- `np.column_stack((pos.astype(int), dur.astype(int)))`: the two answers side by side, one row per element; a
+    0-dimensional answer counts as a column of one element (`np.column_stack` makes every input at least 2-d).
+    `none`: a NaN position (cannot happen: `PPoly` extrapolates) -/
+def columnStack : Res (Option Int) → Res (Option Int) → Option (List (Int × Option Int))
+  | .one (some p), .one d => some [(p, d)]
+  | .many ps, .many ds => allSomeL ((ps.zip ds).map fun pd => pd.1.map fun p => (p, pd.2))
+  | _, _ => none
+
+/-- `metrical_position_map` as a callable, given `look = [measure_map(m.start.t) for m in measures]`:
+    no measures: the wrapper's LINEAR interpolator over two zero samples (scipy: shape of the argument);
+    otherwise `inter_function = PPoly(...)` (scipy: shape of the argument) and `measure_inter_function` = the wrapper
+    over `(barlines[:-1], np.diff(barlines))`, both called with the argument as it is;
+    `isinstance(input, Iterable)`: `np.column_stack` of the two answers, else the tuple of the two answers -/
+def callMetricalOfBars (look : List (Int × Int)) (a : Arg) : Option (Res (Int × Option Int)) :=
+  match look.getLast? with
+  | none => some (callScipy (fun _ => ((0 : Int), some (0 : Int))) a)
+  | some last =>
+    let starts := look.map (·.1)
+    let barlines := starts ++ [last.2]
+    let durTbl : Tbl Int := starts.zip (diffs barlines)
+    let startTbl : Tbl Int := starts.map fun s => (s, s)
+    let pos : Res (Option Int) := callScipy (fun x => (lookupPrev startTbl x).map fun b => x - b) a
+    let dur : Res (Option Int) := callInterpPrev durTbl a
+    if a.isIterable then (columnStack pos dur).map .many
+    else match pos, dur with
+      | .one (some p), .one d => some (.one (p, d))
+      | _, _ => none
+
+/-- `metrical_position_map` (`none` = the property raises) -/
 def callMetrical (p : PartD) : Arg → Option (Res (Int × Option Int)) :=
   fun a =>
-    match a with
-    | .scalar x => (metricalMapP p x).map .one
-    | .seq xs => (allSomeL (xs.map (metricalMapP p))).map .many
+    if raisesP p then none
+    else match barLookups (measureTableP p) (bars p) with
+      | none => none
+      | some look => callMetricalOfBars look a
 
 end Model.StepMap
